@@ -133,12 +133,22 @@ Ltac inv_eq :=
 
 Ltac crunch H := repeat (first [ inv_eq | brk H; try cbv beta iota in H ]).
 
+Lemma priv_alloc' : forall h n h1 l, alloc h n = (h1, l) -> private_attrs h -> private_node n -> private_attrs h1.
+Proof. intros. eapply priv_alloc; eauto. Qed.
+
 Create HintDb priv.
-#[export] Hint Resolve priv_alloc priv_set_item priv_del_item priv_append_item priv_update_items
+#[export] Hint Resolve priv_alloc' priv_set_item priv_del_item priv_append_item priv_update_items
   priv_extend_items priv_del_field : priv.
 #[export] Hint Extern 1 (private_node _) => (simpl; solve [auto | repeat constructor]) : priv.
 
-Ltac fin := eauto 40 with priv.
+(* forward saturation: every heap produced by an equation in the context is private *)
+Ltac know h1 := lazymatch goal with | _ : private_attrs h1 |- _ => fail | _ => idtac end.
+Ltac fwd1 :=
+  match goal with
+  | E : _ = (?h1, _) |- _ => is_var h1; know h1; assert (private_attrs h1) by (solve [eauto 3 with priv])
+  | E : _ = Some ?h1 |- _ => is_var h1; know h1; assert (private_attrs h1) by (solve [eauto 3 with priv])
+  end.
+Ltac fin := repeat fwd1; solve [eauto 3 with priv].
 
 (* ------------------------------------------------------------------ *)
 (* Heap.v: copies                                                       *)
@@ -270,8 +280,8 @@ Section InterpPriv.
     destruct r2; try (inversion H; subst; auto; fail).
     match type of H with (let (_, _) := alloc ?hh ?nn in _) = _ => destruct (alloc hh nn) as [h4 o] eqn:Ea2 end.
     inversion H; subst. eapply priv_alloc; [| |eauto].
-    - match goal with |- private_attrs (if ?c then _ else _) => destruct c end;
-        repeat match goal with |- private_attrs (match ?x with _ => _ end) => destruct x eqn:? end; fin.
+    - repeat (match goal with |- context [match ?x with _ => _ end] => let y := scrut x in destruct y eqn:? end;
+              try cbv beta iota); fin.
     - simpl. constructor; [reflexivity|]. destruct (assoc (u "_valid_refs") m); repeat constructor.
   Qed.
 
